@@ -298,11 +298,23 @@ fn violation(kind: &str, labels_desc: &str, init: Init, hist: &[SOp], what: &str
 }
 
 /// Check one history from scratch (every step); used by BFS expansion on the last step and by replay.
+pub type StateHook<'h, T> = &'h (dyn Fn(&AAFramework<T>, &RefStore, &[T]) -> Result<(), String> + Sync);
+
 pub fn check_last_step<T: LabelType>(
     kind: &str,
     labels: &[T],
     init: Init,
     hist: &[SOp],
+) -> Result<String, Violation> {
+    check_last_step_hook(kind, labels, init, hist, None)
+}
+
+pub fn check_last_step_hook<T: LabelType>(
+    kind: &str,
+    labels: &[T],
+    init: Init,
+    hist: &[SOp],
+    hook: Option<StateHook<T>>,
 ) -> Result<String, Violation> {
     let labels_desc = format!("{:?}", labels);
     let (mut af, mut rf) = make(init, labels);
@@ -332,6 +344,11 @@ pub fn check_last_step<T: LabelType>(
                     return Err(violation(kind, &labels_desc, init, h, if last { "observation_differs" } else { "observation_differs_after_earlier_observations" }, m));
                 }
                 if last {
+                    if let Some(h2) = hook {
+                        if let Err(m) = h2(&af, &rf, labels) {
+                            return Err(violation(kind, &labels_desc, init, h, "state_hook", m));
+                        }
+                    }
                     return Ok(canon(&af));
                 }
             }
@@ -341,15 +358,24 @@ pub fn check_last_step<T: LabelType>(
     if let Err(m) = observe(&af, labels, &rf) {
         return Err(violation(kind, &labels_desc, init, hist, "observation_differs", m));
     }
+    if let Some(h2) = hook {
+        if let Err(m) = h2(&af, &rf, labels) {
+            return Err(violation(kind, &labels_desc, init, hist, "state_hook", m));
+        }
+    }
     Ok(canon(&af))
 }
 
 pub fn bfs<T: LabelType + Send + Sync>(kind: &str, labels: &[T], init: Init, depth: usize) -> BfsResult {
+    bfs_hook(kind, labels, init, depth, None)
+}
+
+pub fn bfs_hook<T: LabelType + Send + Sync>(kind: &str, labels: &[T], init: Init, depth: usize, hook: Option<StateHook<T>>) -> BfsResult {
     let ops = alphabet(labels.len() as u8);
     let mut res = BfsResult { states: 0, transitions: 0, rejected_transitions: 0, max_depth: 0, violations: BTreeMap::new(), sample: None };
     let mut seen: HashSet<String> = HashSet::new();
     let mut frontier: Vec<Vec<SOp>> = vec![];
-    match check_last_step(kind, labels, init, &[]) {
+    match check_last_step_hook(kind, labels, init, &[], hook) {
         Ok(c) => {
             seen.insert(c);
             frontier.push(vec![]);
@@ -374,7 +400,7 @@ pub fn bfs<T: LabelType + Send + Sync>(kind: &str, labels: &[T], init: Init, dep
                     for o in &h2 {
                         ok = rf.apply(o);
                     }
-                    let r = check_last_step(kind, labels, init, &h2);
+                    let r = check_last_step_hook(kind, labels, init, &h2, hook);
                     (h2, r, ok)
                 })
             })
